@@ -183,6 +183,11 @@ func genC03(g *genCtx) {
 		d := pool[r.intn(len(pool))]
 		g.add(&Case{Kind: "sel", Doc: d, Ctx: pickNodeCtx(r, d), Expr: genPositional(r)})
 	}
+	// the proximity position must not depend on what the same compiled expression saw before: positional
+	// expressions evaluated in turn on two documents of the same shape with different numbers of candidates
+	genShapeHistories(g, g.scale(400, 4000), []string{"/r/l/i[last()]", "//i[position() = last()]", "l/i[last() - 1]", "//l/i[position() < last()]",
+		"/r/l/i[last()][@k]", "//i[2]", "l/i[position() = 2]", "/r/l/i[position() > 1][@k = '2']", "//l/i[last() - 2]", "//i[position() != last()]",
+		"/r/l[2]/i[1]", "/r/l[last()]/i[last()]", "(//i)[2]", "(/r/l/i)[3]"})
 }
 
 // exprs used for histories / concurrency: a mix of all fragments
@@ -222,21 +227,74 @@ func genC04(g *genCtx) {
 		e := genAnyExpr(r)
 		nops := 2 + r.intn(maxOps)
 		var ops []string
+		// a third of the histories visit a second document in between ("… on which other context nodes or documents")
+		var d2 Doc
+		if r.chance(1, 3) {
+			d2 = pool[r.intn(len(pool))]
+			ops = append(ops, "D"+hx(d2.Encode()))
+		}
 		for k := 0; k < nops; k++ {
-			ctx := pickNodeCtx(r, d)
+			dd, at := d, ""
+			if d2 != nil && r.chance(1, 2) {
+				dd, at = d2, "@"
+			}
+			ctx := pickNodeCtx(r, dd)
 			if r.chance(1, 2) {
-				ops = append(ops, "E"+ctx.String())
+				ops = append(ops, "E"+at+ctx.String())
 			} else {
 				cnt := -1
 				if r.chance(1, 2) {
 					cnt = r.intn(3)
 				}
-				ops = append(ops, fmt.Sprintf("S%s:%d", ctx, cnt))
+				ops = append(ops, fmt.Sprintf("S%s%s:%d", at, ctx, cnt))
 			}
 		}
 		g.add(&Case{Kind: "hist", Doc: d, Ctx: Ref{0, -1}, Expr: e, Extra: strings.Join(ops, ";")})
 	}
 	genC04values(g)
+	genC04shapes(g)
+}
+
+// per-expression caches keyed by node *identity*: two documents of the same shape (same names, same
+// sibling-index paths) whose corresponding parents have different numbers of children or different
+// values, visited in turn by one compiled expression
+func genC04shapes(g *genCtx) {
+	genShapeHistories(g, g.scale(600, 6000), []string{"/r/l/i[last()]", "//i[position() = last()]", "l/i[last() - 1]", "//l/i[position() < last()]", "/r/l/i[last()][@k]",
+		"count(//i)", "count(l/i)", "//l[count(i) > 2]", "string(//i[last()]/@k)", "sum(//i/@k)", "//i[@k = ../i[last()]/@k]",
+		"(//i)[last()]", "//i[2]", "l/i[position() = 2]", "string-join(//i/@k, ',')", "//i[not(following-sibling::i)]", "name(//*[last()])",
+		"//l/i[last()]/preceding-sibling::i[1]", "//i[last() = 3]", "concat(count(//i), ':', //i[last()]/@k)"})
+}
+
+func genShapeHistories(g *genCtx, n int, exprs []string) {
+	r := g.r
+	mk := func() Doc {
+		d := Doc{{Depth: 0, Kind: 'r'}, {Depth: 1, Kind: 'e', Name: "r"}}
+		nl := 1 + r.intn(2)
+		for l := 0; l < nl; l++ {
+			d = append(d, Rec{Depth: 2, Kind: 'e', Name: "l"})
+			for i, n := 0, r.intn(5); i < n; i++ {
+				d = append(d, Rec{Depth: 3, Kind: 'e', Name: "i", Attrs: []Attr{{Name: "k", Val: fmt.Sprint(1 + r.intn(4))}}})
+			}
+		}
+		return d
+	}
+	for i := 0; i < n; i++ {
+		d, d2 := mk(), mk()
+		ops := []string{"D" + hx(d2.Encode())}
+		ctxs := []string{"0", "1"}
+		for k := 0; k < 3+r.intn(5); k++ {
+			at := ""
+			if r.chance(1, 2) {
+				at = "@"
+			}
+			if r.chance(2, 3) {
+				ops = append(ops, "S"+at+r.pick(ctxs)+":-1")
+			} else {
+				ops = append(ops, "E"+at+r.pick(ctxs))
+			}
+		}
+		g.add(&Case{Kind: "hist", Doc: d, Ctx: Ref{0, -1}, Expr: r.pick(exprs), Extra: strings.Join(ops, ";")})
+	}
 }
 
 var cmpOps = []string{"=", "!=", "<", "<=", ">", ">="}
